@@ -49,8 +49,9 @@ CanOp == Quiet /\ nops < MaxOps
 Op(rec) == nops' = nops + 1 /\ hist' = Append(hist, rec)
 
 (* Engine.Subscribe(pid) / Unsubscribe(pid): a message to the stream *)
+(* the PID may belong to an actor that has already stopped (at most one stopped-but-subscribed actor at a time) *)
 Subscribe(p, o) ==
-  /\ CanOp /\ alive[p]
+  /\ CanOp /\ (alive[p] \/ \A q \in Subs \ {p} : alive[q] \/ (\A oo \in Objs \cup {0} : <<q, oo>> \notin subs))
   /\ inbox' = Append(inbox, [t |-> "sub", p |-> p, o |-> o, e |-> UserEv("-", 0)])
   /\ Op([op |-> "sub", p |-> p, o |-> o, b |-> "-", target |-> "-", sender |-> "-", id |-> 0])
   /\ UNCHANGED <<subs, alive, got, want, asub, nev, nmsg, gen>>
